@@ -196,3 +196,6 @@ func vfStubCalls(name string) int { return 0 }
 
 // vfQuietLock: operations on this mutex are not pre-emption points (engine only).
 func vfQuietLock(p any) {}
+
+// vfDecodeOpaque: identity decoding of an opaque encoded buffer (engine only).
+func vfDecodeOpaque(b []byte, out any) bool { return false }
